@@ -47,4 +47,15 @@ CHECKS = {
             dict(pkg="./redis-shake/filter", harness=["filter"], test="^TestVerif_C15F$", shards=1, budget=dict(quick=60, thorough=600)),
         ],
     ),
+    "C13": dict(
+        level="model_checking",
+        engine="seqx",
+        technique="exhaustive product (command x arity x pass/fail mask x filter configuration) executed on the real rewrite function, compared with a reference built from Redis' key-position table",
+        text="For every command of the tool's write-command table, every arity from the minimum to minimum+3 key groups, every subset of keys passing, "
+             "and filter none/whitelist/blacklist, HandleFilterKeyWithCommand's output is compared with a reference rewrite derived from the Redis command "
+             "reference (first/last/step). Non-key arguments are named so that they would be filtered if mistaken for keys.",
+        note="trusts the transcription of Redis' key positions in harness/filter/c13_test.go; commands added to the tool's table that the reference does not know are reported as notes, not judged",
+        rule="case = (command, argument shape, pass mask, filter config); all distinct; states = distinct cases, transitions = calls; non-trivial = all (each is compared with the reference rewrite)",
+        parts=[dict(pkg="./redis-shake/filter", harness=["filter"], test="^TestVerif_C13$", shards=1, budget=dict(quick=60, thorough=60))],
+    ),
 }
